@@ -181,6 +181,7 @@ fn render(src: &Src, edits: &[Edit], s: usize, e: usize, out: &mut Out, depth: u
 }
 
 // ---------------------------------------------------------------------------------------------- directives
+thread_local! { static FMT_EMITTED: std::cell::RefCell<std::collections::HashSet<String>> = std::cell::RefCell::new(std::collections::HashSet::new()); }
 thread_local! { static INCLUDED: std::cell::RefCell<std::collections::HashSet<std::path::PathBuf>> = std::cell::RefCell::new(std::collections::HashSet::new()); }
 
 #[derive(Default, Debug)]
@@ -199,6 +200,7 @@ struct FnDir {
     drop_sites: bool,
     safety: Option<String>,
     imported_from: Option<String>,
+    fmt_interp: bool,
 }
 
 #[derive(Default, Debug, Clone)]
@@ -218,6 +220,9 @@ struct LoopDir {
 
 #[derive(Default, Debug)]
 struct AtDir {
+    /// `check`: carries an obligation / a ghost declaration contracts depend on -- never dropped;
+    /// `at`: proof hint -- all hints of a function are dropped when one cannot be re-attached
+    keep: bool,
     pos: String,
     clause: String,
     text: String,
@@ -350,6 +355,9 @@ fn parse_unit(path: &str) -> (Vec<Piece>, Vec<(String, String)>) {
                         } else if let Some(a) = section.strip_prefix("safety ") {
                             fd.safety = Some(a.trim().trim_start_matches('[').trim_end_matches(']').to_string());
                             section.clear();
+                        } else if section == "fmt-interp" {
+                            fd.fmt_interp = true;
+                            section.clear();
                         } else if section == "no-return-name" {
                             fd.no_return_name = true;
                             section.clear();
@@ -412,15 +420,16 @@ fn flush_section(fd: &mut FnDir, section: &str, buf: &[(usize, String)]) {
                 _ => bail!("line {}: loop section kind", sl),
             }
         }
-        "at" => {
+        "at" | "check" => {
             // at <pos...> [clause]
-            let rest = sec[2..].trim();
+            let keep = words[0] == "check";
+            let rest = sec[words[0].len()..].trim();
             let (pos, clause) = match rest.rfind('[') {
                 Some(k) if rest.ends_with(']') => (rest[..k].trim().to_string(), rest[k + 1..rest.len() - 1].to_string()),
                 _ => (rest.to_string(), String::new()),
             };
             let text = buf.iter().map(|(_, l)| l.as_str()).collect::<Vec<_>>().join("\n");
-            fd.ats.push(AtDir { pos, clause, text, vrs_line: sl });
+            fd.ats.push(AtDir { keep, pos, clause, text, vrs_line: sl });
         }
         _ => bail!("unit line {}: unknown section `{}`", sl, sec),
     }
@@ -534,6 +543,9 @@ struct Rules<'a> {
     loops: Vec<(usize, usize, usize)>,
     rename_self: bool,
     unsupported: Vec<String>,
+    fmt_interp: bool,
+    /// generated items for R11: (name, code)
+    fmt_items: Vec<(String, String)>,
 }
 
 fn path_str(p: &syn::Path) -> String {
@@ -572,6 +584,36 @@ impl<'a> Rules<'a> {
             }
         };
         match name.as_str() {
+            "format" if self.fmt_interp => {
+                // R11: the format literal is interpreted: a changed literal or argument order changes the spec term
+                let a = args();
+                let litstr = match a.first() {
+                    Some(syn::Expr::Lit(syn::ExprLit { lit: syn::Lit::Str(l), .. })) => Some(l.value()),
+                    _ => None,
+                };
+                match litstr {
+                    None => self.unsupported.push(format!("format! without a literal at {}", self.src.line_of(whole.0))),
+                    Some(f) => {
+                        let nargs = a.len() - 1;
+                        let (name, code) = gen_fmt(&f, nargs);
+                        if !self.fmt_items.iter().any(|(n, _)| n == &name) {
+                            self.fmt_items.push((name.clone(), code));
+                        }
+                        let mut parts = vec![lit(&format!("vfmt_{}(", name))];
+                        for (k, e) in a[1..].iter().enumerate() {
+                            if k > 0 {
+                                parts.push(lit(", "));
+                            }
+                            parts.push(self.src_part(e.span()));
+                        }
+                        parts.push(lit(")"));
+                        self.push("R11", whole, parts);
+                        for e in &a[1..] {
+                            self.visit_expr(e);
+                        }
+                    }
+                }
+            }
             "format" => self.push("R5", whole, vec![lit("()")]),
             "panic" | "unreachable" | "unimplemented" | "todo" => self.push("R6", whole, vec![lit("vpanic()")]),
             "assert" | "debug_assert" => {
@@ -880,6 +922,85 @@ impl<'a> Rules<'a> {
     }
 }
 
+/// R11: turn a format literal into a spec term over `dec` / `dec_pad` (std's Display for integers,
+/// assumed) and literal bytes. Unknown format specs map to an uninterpreted function.
+fn gen_fmt(f: &str, nargs: usize) -> (String, String) {
+    let mut h: u64 = 0xcbf29ce484222325;
+    for b in f.bytes() {
+        h ^= b as u64;
+        h = h.wrapping_mul(0x100000001b3);
+    }
+    let name = format!("{:08x}_{}", (h & 0xffff_ffff) as u32, nargs);
+    let mut segs: Vec<String> = vec![];
+    let mut litbuf: Vec<u8> = vec![];
+    let bytes = f.as_bytes();
+    let mut i = 0;
+    let mut argi = 0usize;
+    let mut ok = true;
+    let flush = |litbuf: &mut Vec<u8>, segs: &mut Vec<String>| {
+        if !litbuf.is_empty() {
+            segs.push(format!("seq![{}]", litbuf.iter().map(|b| format!("{}u8", b)).collect::<Vec<_>>().join(", ")));
+            litbuf.clear();
+        }
+    };
+    while i < bytes.len() {
+        match bytes[i] {
+            b'{' if i + 1 < bytes.len() && bytes[i + 1] == b'{' => {
+                litbuf.push(b'{');
+                i += 2;
+            }
+            b'}' if i + 1 < bytes.len() && bytes[i + 1] == b'}' => {
+                litbuf.push(b'}');
+                i += 2;
+            }
+            b'{' => {
+                let close = match f[i..].find('}') {
+                    Some(c) => i + c,
+                    None => {
+                        ok = false;
+                        break;
+                    }
+                };
+                let spec = &f[i + 1..close];
+                flush(&mut litbuf, &mut segs);
+                if spec.is_empty() {
+                    segs.push(format!("dec(a[{}])", argi));
+                } else if spec.starts_with(":0") && spec[2..].chars().all(|c| c.is_ascii_digit()) && spec.len() > 2 {
+                    segs.push(format!("dec_pad({}, a[{}])", &spec[2..], argi));
+                } else {
+                    segs.push(format!("fmt_opaque({}, {}, a[{}])", h & 0xffff_ffff, argi, argi));
+                }
+                argi += 1;
+                i = close + 1;
+            }
+            b => {
+                litbuf.push(b);
+                i += 1;
+            }
+        }
+    }
+    flush(&mut litbuf, &mut segs);
+    if !ok || argi != nargs {
+        segs = vec![format!("fmt_opaque({}, 0, 0)", h & 0xffff_ffff)];
+    }
+    if segs.is_empty() {
+        segs.push("Seq::<u8>::empty()".to_string());
+    }
+    let generics: Vec<String> = (0..nargs).map(|k| format!("A{}: DecArg", k)).collect();
+    let params: Vec<String> = (0..nargs).map(|k| format!("a{}: A{}", k, k)).collect();
+    let vals: Vec<String> = (0..nargs).map(|k| format!("a{}.dval()", k)).collect();
+    let code = format!(
+        "// R11: generated from the format literal {:?}\npub open spec fn fmt_{name}(a: Seq<int>) -> Seq<u8> {{ {} }}\n#[verifier::external_body]\npub fn vfmt_{name}{}({}) -> (r: String)\n    ensures str_bytes(&r) == fmt_{name}(seq![{}])\n{{ unimplemented!() }}\n",
+        f,
+        segs.join(" + "),
+        if nargs > 0 { format!("<{}>", generics.join(", ")) } else { String::new() },
+        params.join(", "),
+        if nargs > 0 { vals.join(", ") } else { String::new() },
+        name = name
+    );
+    (name, code)
+}
+
 fn closure_diverges(e: &syn::Expr) -> bool {
     match e {
         syn::Expr::Macro(m) => {
@@ -1028,12 +1149,21 @@ fn main() {
         let mut cur = String::from("gen");
         let mut line_start = true;
         let mut this: Option<String> = None;
+        let mut in_comment = false;
         for (i, b) in bytes.iter().enumerate() {
             while mi < out.marks.len() && out.marks[mi].0 <= i {
                 cur = out.marks[mi].1.clone();
                 mi += 1;
             }
-            if line_start && !(*b as char).is_whitespace() {
+            // extractor markers (/*[n*/ ... /*n]*/) do not decide where a line comes from
+            if !in_comment && *b == b'/' && i + 1 < bytes.len() && bytes[i + 1] == b'*' {
+                in_comment = true;
+            }
+            let was_comment = in_comment;
+            if in_comment && *b == b'/' && i >= 1 && bytes[i - 1] == b'*' && i >= 3 {
+                in_comment = false;
+            }
+            if line_start && !was_comment && !(*b as char).is_whitespace() {
                 this = Some(cur.clone());
                 line_start = false;
             }
@@ -1289,11 +1419,11 @@ fn emit_fn(src: &Src, path: &str, fd: &FnDir, bm: &[(String, String)], unit: &st
 
     let imported = fd.imported_from.is_some();
     // ---- body rules
-    let mut rules = Rules { src, edits: vec![], stmts: vec![], loops: vec![], rename_self, unsupported: vec![] };
+    let mut rules = Rules { src, edits: vec![], stmts: vec![], loops: vec![], rename_self, unsupported: vec![], fmt_interp: fd.fmt_interp, fmt_items: vec![] };
     if !imported {
         rules.visit_block(block);
     }
-    let Rules { edits: body_edits, stmts, loops, unsupported, .. } = rules;
+    let Rules { edits: body_edits, stmts, loops, unsupported, fmt_items, .. } = rules;
     edits.extend(body_edits);
     if imported {
         // the callee is verified in its own unit; here only its contract is visible
@@ -1368,7 +1498,11 @@ fn emit_fn(src: &Src, path: &str, fd: &FnDir, bm: &[(String, String)], unit: &st
                         }
                     }
                     None => {
-                        lost_hints.push(json!({"fn": format!("{}::{}", src.rel, path), "at": at.pos, "clause": at.clause, "matches": cands.len(), "vrs_line": at.vrs_line}));
+                        if at.keep {
+                            lost.push(format!("check {} (pattern matches {} statements)", at.pos, cands.len()));
+                        } else {
+                            lost_hints.push(json!({"fn": format!("{}::{}", src.rel, path), "at": at.pos, "clause": at.clause, "matches": cands.len(), "vrs_line": at.vrs_line}));
+                        }
                         continue;
                     }
                 }
@@ -1376,15 +1510,21 @@ fn emit_fn(src: &Src, path: &str, fd: &FnDir, bm: &[(String, String)], unit: &st
             _ => None,
         };
         match pos {
-            Some(p) => hint_edits.push(Edit {
+            Some(p) => (if at.keep { &mut edits } else { &mut hint_edits }).push(Edit {
                 start: p,
                 end: p,
                 rule: "SPLICE".into(),
                 parts: vec![lit(&format!("\n{}\n", at.text))],
-                origin: Some(format!("hint:{}:{}:{}", if at.clause.is_empty() { "-" } else { &at.clause }, unit, at.vrs_line)),
+                origin: Some(format!("{}:{}:{}:{}", if at.keep { "check" } else { "hint" }, if at.clause.is_empty() { "-" } else { &at.clause }, unit, at.vrs_line)),
                 prio: if words[0] == "after" { -50 + k as i32 } else { 50 + k as i32 },
             }),
-            None => lost_hints.push(json!({"fn": format!("{}::{}", src.rel, path), "at": at.pos, "clause": at.clause, "matches": 0, "vrs_line": at.vrs_line})),
+            None => {
+                if at.keep {
+                    lost.push(format!("check {}", at.pos));
+                } else {
+                    lost_hints.push(json!({"fn": format!("{}::{}", src.rel, path), "at": at.pos, "clause": at.clause, "matches": 0, "vrs_line": at.vrs_line}));
+                }
+            }
         }
     }
 
@@ -1429,6 +1569,12 @@ fn emit_fn(src: &Src, path: &str, fd: &FnDir, bm: &[(String, String)], unit: &st
     let k = out.next_id;
     out.next_id += 1;
     out.mark(format!("gen:{}:{}", unit, fd.vrs_line));
+    for (n, code) in &fmt_items {
+        if FMT_EMITTED.with(|s| s.borrow_mut().insert(n.clone())) {
+            out.mark(format!("gen:{}:{}", unit, fd.vrs_line));
+            out.text.push_str(code);
+        }
+    }
     let wrap = match &impl_hdr {
         Some(h) if h != "trait-default" => {
             let _ = writeln!(out.text, "{} {{", h);
